@@ -40,9 +40,32 @@ def gen_simple(rng):
     return {"ops": ops, "node_templates": nts, "circuit": {"name": "net", "nodes": nodes, "edges": edges}}
 
 
+def gen_fanout(rng):
+    """stratum: one node of its own type projecting with different delays to 2-4 nodes of another type (merged into one vectorized edge)"""
+    m = gen_simple(rng)
+    base = m["ops"]["O"]
+    op2 = copy.deepcopy(base)
+    op2["name"] = "src_op"
+    op2["eqs"].append({"lhs": "zz", "de": True, "rhs": M.sub(M.var("x"), M.var("zz"))})      # structurally different: a node type of its own
+    op2["vars"]["zz"] = {"decl": "var", "value": "0"}
+    m["ops"] = {"O": base, "S": op2}
+    m["_fanout"] = True
+    k = rng.randint(2, 4)
+    nts = {"S0": {"name": "s0", "ops": ["S"], "overrides": {"S": {"x": "2", "a": "1"}}}}
+    nodes = {"src": "S0"}
+    for i in range(k):
+        nts[f"T{i}"] = {"name": f"t{i}", "ops": ["O"], "overrides": {"O": {"x": str(F(rng.randint(-3, 3))), "a": str(F(rng.choice([0, 1, 2])))}}}
+        nodes[f"n{i}"] = f"T{i}"
+    edges = [{"src": "src/src_op/x", "tgt": f"n{i}/li/r_in", "w": str(F(rng.choice([1, 2, 3])))} for i in range(k)]
+    if rng.random() < 0.5:
+        edges.append({"src": "n0/li/x", "tgt": "src/src_op/r_in", "w": "1"})
+    m["node_templates"], m["circuit"] = nts, {"name": "net", "nodes": nodes, "edges": edges}
+    return m
+
+
 def gen_case(rng, tier, solver="euler"):
     for _ in range(100):
-        mdl = gen_simple(rng)
+        mdl = gen_fanout(rng) if rng.random() < 0.25 else gen_simple(rng)
         es = mdl["circuit"]["edges"]
         if not es:
             continue
@@ -54,6 +77,12 @@ def gen_case(rng, tier, solver="euler"):
         for e in es:
             pairs[(e["src"], e["tgt"])] = pairs.get((e["src"], e["tgt"]), 0) + 1
         delayed_var_of_op = {}
+        if mdl.pop("_fanout", False):
+            ds = rng.sample([2, 3, 4, 5, 6], len([e for e in es if e["src"].startswith("src/")]))
+            for e, D in zip([e for e in es if e["src"].startswith("src/")], ds):
+                e["delay"] = C.q2s(D * dt)
+            any_delay = True
+            es = []
         for e in es:
             opkey = e["src"].rsplit("/", 1)[0]
             if pairs[(e["src"], e["tgt"])] > 1 or delayed_var_of_op.get(opkey, e["src"]) != e["src"]:
@@ -76,11 +105,30 @@ def gen_case(rng, tier, solver="euler"):
         steps = rng.choice([5, 6, 7])
         case = {"mdl": mdl, "run": {"T": C.q2s(dt * steps), "dt": C.q2s(dt), "solver": solver, "vectorize": rng.random() < 0.5,
                                     "outputs": {f"v{i}": p for i, p in enumerate(sp)}}, "style": {}, "in_place": rng.random() < 0.5}
+        if rng.random() < 0.2:
+            case["first_dt"] = C.q2s(dt * rng.choice([2, F(1, 2)]))      # an earlier compilation of the same model with another step size
         o = N.oracle_traj(case)
         if "error" in o or o["bits"] > 44:
             continue
         return case
     raise C.HarnessError("generator could not produce an admissible case")
+
+
+def run_twice(case):
+    """the same delayed model compiled twice in one process with two different step sizes (second result is the observable)"""
+    first = json.loads(json.dumps(case))
+    first["run"]["dt"] = case["first_dt"]
+    first["run"]["T"] = C.q2s(F(case["first_dt"]) * 4)
+    r0 = N.impl_run(first)
+    if "error" in r0:
+        # the earlier compilation itself failed (e.g. a C04 known finding); what a failed run leaves behind is C13's subject, not C09's
+        from pyrates import clear_frontend_caches
+        clear_frontend_caches()
+    return N.impl_run(case)
+
+
+def run_any(case):
+    return run_twice(case) if case.get("first_dt") else N.impl_run(case)
 
 
 def feats(case):
@@ -127,7 +175,7 @@ def check(tier, seed, replay=None):
         n = 140 if tier == "quick" else 2200
         cases += [gen_case(rng, tier) for _ in range(n)] + [gen_case(rng, tier, solver="heun") for _ in range(8 if tier == "quick" else 60)]
     orcs = [N.oracle_traj(c) for c in cases]
-    impl = C.run_forked(N.impl_run, cases, timeout=240)
+    impl = C.run_forked(run_any, cases, timeout=240)
     drv = C.Driver()
     bad = []
     active_kf = {f["id"] for f in C.load_known_findings() if f.get("property") == PID and f.get("status") == "known"}
@@ -135,7 +183,7 @@ def check(tier, seed, replay=None):
         if "crash" in im:
             raise C.HarnessError("harness child crashed: " + str(im)[:800])
         f = feats(case)
-        rep.count(case["run"]["solver"] + ("-vec" if case["run"]["vectorize"] else "-novec"), json.dumps(case, sort_keys=True), nontrivial=any(f.values()))
+        rep.count(case["run"]["solver"] + ("-vec" if case["run"]["vectorize"] else "-novec") + ("-after-other-dt" if case.get("first_dt") else ""), json.dumps(case, sort_keys=True), nontrivial=any(f.values()))
         mr = drv.ask(N.model_traj_request(case, orc["flat"]))
         if mr.get("rows") != orc["rows"]:
             raise C.HarnessError("Lean model and oracle disagree: " + json.dumps(case)[:400])
